@@ -35,6 +35,8 @@ def run(ck):
         raise AnalysisError("DiffusionCurve.__attrs_post_init__ not found")
     ck.analysed_function(post)
     ck.analysed_function(df)
+    from ..purity import purity
+    purity(ck, repo, [post, df, repo.find_function("Permeance.convert")])
     J = [Rat.sym("self.partial_fluxes[#b0][%d]" % i) for i in (0, 1)]
     from ..symeval import PAIR_PATHS
     PAIR_PATHS.add("self.partial_fluxes[#b0]")
@@ -149,6 +151,8 @@ def unclamp(val):
             return ta
         if ta.is_zero():
             return fb
+    if a is not None and a.kind == "fn" and a.name == "max" and len(a.args) == 2 and any(z.is_zero() for z in a.args):
+        return a.args[0] if a.args[1].is_zero() else a.args[1]
     return val.r
 
 
@@ -171,7 +175,7 @@ def forward(repo, df, mode, J):
     Perm = repo.find_class("Permeance")
 
     def setup(ev):
-        me = ObjV(DFcls, {"mixture": ObjV(repo.find_class("Mixture"), path="self.mixture")})
+        me = ObjV(DFcls, path="self")
         ov = {
             "self": me,
             "first_component_permeance": ObjV(Perm, path="#P1"),
